@@ -201,6 +201,45 @@ func runC14(c *an.Ctx) {
 				}
 			}
 		}
+		// and by nothing else: the update of the running value is conditioned on the step's own error and change
+		// report only (a further condition — "already collected", "same length" — skips the step for the steps
+		// that follow, which then run on the value from before it)
+		if multi {
+			for i, e := range run.Edges {
+				pb := run.Block().Preds[i]
+				if !(pb == run.Block() || run.Block().Dominates(pb)) {
+					continue
+				}
+				var leaf func(v ssa.Value, from *ssa.BasicBlock, d int)
+				seenL := map[ssa.Value]bool{}
+				leaf = func(v ssa.Value, from *ssa.BasicBlock, d int) {
+					if d > 6 || seenL[v] || v == ssa.Value(run) {
+						return
+					}
+					seenL[v] = true
+					if phi, ok := v.(*ssa.Phi); ok {
+						for j, e2 := range phi.Edges {
+							leaf(e2, phi.Block().Preds[j], d+1)
+						}
+						return
+					}
+					if ex, ok := v.(*ssa.Extract); ok && ex.Index == 0 {
+						base := strings.TrimSuffix(an.Expr(v), "#0")
+						var foreign []string
+						for _, a := range an.FactsAtBlock(from) {
+							if strings.HasPrefix(a.L, base+"#") || strings.Contains(a.L, "rangeindex") {
+								continue
+							}
+							foreign = append(foreign, tempName.ReplaceAllString(a.String(), ""))
+						}
+						if len(foreign) > 0 {
+							okAll, why = false, "the running value is replaced by the step's output only when additionally "+strings.Join(foreign, ", ")+": a changed step can be skipped for the following steps, which then transform the value from before it (the operator never sees T3(T2(T1(v))))"
+						}
+					}
+				}
+				leaf(e, pb, 0)
+			}
+		}
 		c.Check(okAll, "R5", shortFn(name)+": running value only replaced by a successful"+map[bool]string{true: ", changed", false: ""}[multi]+" step", run.Pos(), "guards on every update", why)
 		if multi {
 			// collection under the same guard
